@@ -582,10 +582,22 @@ func (s *Sim) run() {
 					s.addBlock(uint64(rSeed)+uint64(s.step)<<20+uint64(j)<<44, s.cfg.MaxGroups, via)
 					synctest.Wait()
 				}
-				s.park.armAt("bq.intx", parkSkip, parkMode == 2)
+				// Let the first (single-block) write and everything it triggers - notifyCommit, possibly a tracker
+				// commit - finish on its own, and stop the syncer again before the multi-block write: otherwise the
+				// tracker's commit goroutine races with the second write and the outcome depends on machine load
+				// (determinism self-test: tracker round 14 vs 16 at the crash image).
+				s.park.arm("bq.beforePut")
 				s.park.releaseAll()
 				synctest.Wait()
-				s.stat("bq_backlog_built", 1)
+				if s.park.isParked("bq.beforePut") {
+					s.park.armAt("bq.intx", parkSkip-1, parkMode == 2) // hit 0 of THIS transaction is its first block
+					s.park.releaseAll()
+					synctest.Wait()
+					s.stat("bq_backlog_built", 1)
+				} else {
+					s.park.disarmAll()
+					s.stat("park_not_reached.bq.beforePut(second write)", 1)
+				}
 			} else {
 				s.park.disarmAll()
 				s.stat("park_not_reached.bq.beforePut(for intx)", 1)
